@@ -98,6 +98,16 @@ def _rows(path):
 
 
 def impl(case):
+    """see impl_free: a run that fails only with SQLite's 'database is locked' (a lock wait that timed out on a stalled disk)
+    says nothing about the property and is repeated, at most four times"""
+    for attempt in range(4):
+        r = _impl_once(case)
+        if isinstance(r, Err) or not any("database is locked" in str(x) for x in r[3]):
+            return r
+    return r
+
+
+def _impl_once(case):
     import multiprocessing as mp
     import androguard.session  # noqa: imported before forking
     pre, n, sched = case
